@@ -677,14 +677,22 @@ impl<'lexer> Lexer<'lexer> {
     // ------------------------------------------------------------------------
     // tweak with built-in type names
     // ------------------------------------------------------------------------
-    if self.type_name
-      && matches!(
-        name.to_string().as_str(),
-        "Any" | "Null" | "boolean" | "number" | "string" | "date" | "date and time" | "time" | "years and months duration" | "days and time duration"
-      )
-    {
-      self.type_name = false;
-      return Ok((TokenType::BuiltInTypeName, TokenValue::BuiltInTypeName(name)));
+    // the type name is the longest sequence of leading parts that makes a built-in type name,
+    // what follows it (an operator, a keyword, another name) is returned to the input
+    if self.type_name {
+      let mut part_count = parts.len();
+      while part_count > 0 {
+        let type_name: Name = parts[..part_count].to_vec().into();
+        if matches!(
+          type_name.to_string().as_str(),
+          "Any" | "Null" | "boolean" | "number" | "string" | "date" | "date and time" | "time" | "years and months duration" | "days and time duration"
+        ) {
+          self.type_name = false;
+          self.position = consumed_positions[part_count - 1] + 1;
+          return Ok((TokenType::BuiltInTypeName, TokenValue::BuiltInTypeName(type_name)));
+        }
+        part_count -= 1;
+      }
     }
 
     // ------------------------------------------------------------------------
